@@ -93,15 +93,17 @@ def handleTm : List String → String
       showTmpl F_name_impl_template, showTmpl F_name_function_template, showTmpl F_name_generic_template]
 
 /-- `GenericFunction(force, ...)` is created by the first node filed under the key. -/
-def giForce (sc : Scope) (recs : List Rec) (k : Str) : Bool :=
-  match recs.find? (fun r => r.wrap.f && genericKey sc r == k) with
-  | some r => r.gen == .fortranGeneric || (r.isCtor && !r.templated)
+def giForce (sc : Scope) (sel : Rec → Bool) (recs : List Rec) (k : Str) : Bool :=
+  match recs.find? (fun r => r.wrap.f && sel r && genericKey sc r == k) with
+  | some r => !typeBound sc r && (r.gen == .fortranGeneric || (r.isCtor && !r.templated))
   | none => false
 
-def giEntry (sc : Scope) (recs : List Rec) (e : Str × List Str) : String :=
-  encStr e.1 ++ "=" ++ (if giForce sc recs e.1 then "1" else "0") ++ "=" ++ "+".intercalate (e.2.map encStr)
+def giEntry (kind : String) (sc : Scope) (sel : Rec → Bool) (recs : List Rec) (e : Str × List Str) : String :=
+  kind ++ "=" ++ encStr e.1 ++ "=" ++ (if giForce sc sel recs e.1 then "1" else "0") ++ "=" ++
+    "+".intercalate (e.2.map encStr)
 
-/-- `gi <wrap> <library> <container>` : generic-interface table of one container. -/
+/-- `gi <wrap> <library> <container>` : generic tables of one container: `M=` module-level
+    interfaces, `T=` type-bound generics of the class. -/
 def handleGi : List String → String
   | [w, lib, c] =>
     let w0 := decWrap w
@@ -110,8 +112,9 @@ def handleGi : List String → String
     | [path, fns] =>
       let sc := scopeOf pre w0 (decList decSeg "/" path) (rootScope pre w0)
       let recs := expand sc (decList decFn "!" fns)
-      let t := genericTable sc recs []
-      if t.isEmpty then "~" else ";".intercalate (t.map (giEntry sc recs))
+      let m := (genericTable sc (moduleLevel sc) recs []).map (giEntry "M" sc (moduleLevel sc) recs)
+      let t := (genericTable sc (typeBound sc) recs []).map (giEntry "T" sc (typeBound sc) recs)
+      if (m ++ t).isEmpty then "~" else ";".intercalate (m ++ t)
     | _ => "bad-container"
   | _ => "bad-op"
 
